@@ -26,8 +26,8 @@ m = {
     "notes": meta.NOTES,
 }
 for pid in ALL:
-    if pid in props.PROPS and pid in meta.CLAIMS:
-        c = meta.CLAIMS[pid]
+    if pid in props.PROPS and pid in props.CLAIMS:
+        c = props.CLAIMS[pid]
         m["checks"].append({
             "property_id": pid,
             "quick_cmd": "./check %s quick" % pid,
